@@ -242,6 +242,7 @@ func runUDP(rec *vr.Rec, cases []e2eCase) {
 			results[k].runs++
 			mu.Unlock()
 		}})
+		var dups [][]byte
 		for i, c := range part {
 			typ := uint8(1)
 			if c.Con {
@@ -252,6 +253,15 @@ func runUDP(rec *vr.Rec, cases []e2eCase) {
 			if err := cc.Process(nil, ref.EncodeUDP(m)); err != nil {
 				rec.Violation("C20/harness/process-error", err.Error(), c)
 			}
+			if c.Con && i%4 == 0 && c.Code != 0 {
+				// (a handler "responding" with code 0.00 is not a response at all - left out here)
+				// the peer retransmits this confirmable request (same message ID): whatever the first copy got - the
+				// piggybacked response or, for a suppressed class, the bare ACK - the copy gets the same
+				dups = append(dups, ref.EncodeUDP(m))
+			}
+		}
+		for _, d := range dups {
+			_ = cc.Process(nil, d)
 		}
 		// sentinel: a CON GET without the option; its reply marks the end of the batch
 		sent := ref.Msg{Type: 0, Code: 1, MID: 65000, Token: []byte{0x7f, 1, 2, 3}, Payload: []byte{0x45}}
@@ -300,11 +310,23 @@ func runUDP(rec *vr.Rec, cases []e2eCase) {
 			}
 			if c.Con {
 				acks := byMID[uint16(i+1)]
-				if len(acks) != 1 {
-					rec.Violation("C20/wire/con-ack-count", fmt.Sprintf("udp case %+v: %d datagrams with the request MID, want 1", c, len(acks)), c)
+				wantAcks := 1
+				if i%4 == 0 && c.Code != 0 {
+					wantAcks = 2
+				}
+				if len(acks) != wantAcks {
+					rec.Violation("C20/wire/con-ack-count", fmt.Sprintf("udp case %+v: %d datagrams with the request MID, want %d", c, len(acks), wantAcks), c)
 					continue
 				}
 				a := acks[0]
+				if wantAcks == 2 {
+					rec.Count("udp_con_retransmissions_checked", 1)
+					b := acks[1]
+					if b.Type != a.Type || b.Code != a.Code || !bytes.Equal(b.Token, a.Token) || !bytes.Equal(b.Payload, a.Payload) || len(b.Opts) != len(a.Opts) {
+						rec.Violation("C20/wire/retransmission-answered-differently", fmt.Sprintf("udp case %+v: first copy got %v, the retransmitted copy got %v", c, a, b), c)
+						continue
+					}
+				}
 				if a.Type != 2 {
 					rec.Violation("C20/wire/con-reply-not-ack", fmt.Sprintf("udp case %+v: reply %v", c, a), c)
 				}
